@@ -187,6 +187,8 @@ pub enum Stop {
     RoundCap,
     /// the fate source asked to stop (DFS pruning)
     Aborted,
+    /// the code under test panicked (message @ location)
+    Panicked(String),
 }
 
 pub struct Outcome {
@@ -831,7 +833,7 @@ impl Wire {
         ((c.retx_threshold * (c.retx_max + 1) + d) as u64) * (Self::segments(scn) + 6)
     }
 
-    pub fn run(mut self, fates: &mut dyn Fates, round_cap: u64) -> Outcome {
+    fn run_inner(&mut self, fates: &mut dyn Fates, round_cap: u64) -> Outcome {
         let thr = self.scn.cfg.retx_threshold as u64;
         let stop;
         loop {
@@ -866,17 +868,14 @@ impl Wire {
         self.exec.pending().into_iter().filter(|n| !n.starts_with("daemon:")).collect()
     }
 
-    pub fn finish(mut self, stop: Stop) -> Outcome {
+    fn finish(&mut self, stop: Stop) -> Outcome {
         let pending = self.pending_tasks();
         self.exec.drop_all();
-        // let the closes emit their packets (monitors still apply)
         let final_counts: Vec<(usize, usize, usize)> = turmoil_net::verif::host_ids()
             .into_iter()
             .map(|h| turmoil_net::verif::host_counts_by_id(h).as_tuple())
             .collect();
-        turmoil_net::verif::set_loopback_tap(None);
         let hist = self.sh.hist.borrow().clone();
-        self.guard = None;
         Outcome {
             stop,
             rounds: self.round,
@@ -895,6 +894,57 @@ impl Wire {
 
     pub fn hosts(&self) -> [HostId; 2] {
         self.hosts
+    }
+
+    /// Run to a stop condition. A panic raised by the code under test is
+    /// caught and reported as `Stop::Panicked`; a panic of the harness itself
+    /// propagates (the runner turns it into INCONCLUSIVE).
+    pub fn run(mut self, fates: &mut dyn Fates, round_cap: u64) -> Outcome {
+        let scn = self.scn.clone();
+        let r = std::panic::catch_unwind(std::panic::AssertUnwindSafe(|| self.run_inner(fates, round_cap)));
+        match r {
+            Ok(o) => o,
+            Err(p) => {
+                let msg = vcore::take_last_panic().unwrap_or_else(|| vcore::panic_message(&*p));
+                if !msg.contains("turmoil-net") {
+                    drop(self);
+                    std::panic::resume_unwind(p);
+                }
+                let round = self.round;
+                let hist = self.sh.hist.borrow().clone();
+                let pkts = std::mem::take(&mut self.pkts);
+                drop(self);
+                let _ = scn;
+                Outcome {
+                    stop: Stop::Panicked(msg),
+                    rounds: round,
+                    hist,
+                    pkts,
+                    mon: Mon::default(),
+                    pending: vec![],
+                    drops: 0,
+                    max_hold: 0,
+                    last_fault_round: 0,
+                    overtakes: 0,
+                    retx_seen: 0,
+                    final_counts: vec![],
+                }
+            }
+        }
+    }
+}
+
+impl Drop for Wire {
+    fn drop(&mut self) {
+        // sockets must be closed while the Net is still installed; after a
+        // panic inside the stack its state may be inconsistent, so closing is
+        // best effort
+        let exec = &mut self.exec;
+        if std::panic::catch_unwind(std::panic::AssertUnwindSafe(|| exec.drop_all())).is_err() {
+            let _ = vcore::take_last_panic();
+        }
+        turmoil_net::verif::set_loopback_tap(None);
+        self.guard = None;
     }
 }
 
